@@ -276,7 +276,9 @@ PROPS = {
         "rule": "stream calendar: day numbers (quick: 20k random + all month borders 1890-2110; thorough: every day 0001-01-01..9999-12-31) "
                 "compared on Year/Month/Day/Weekday/StartOf x6/EndOf x6; stream partition: random windows (inverted, single day, long, near zero time, "
                 "on unit borders) x 6 intervals x --last values, compared on the period list and on Align at border/random probe dates, "
-                "and monitored with the Lean predicates partitionOK/alignSpec. A class = (month, weekday, leap) resp. "
+                "and monitored with the Lean predicates partitionOK/alignSpec; stream files: `knut balance --csv` on a one-booking-a-day journal spread over 2-6 included files "
+                "(chunks, enclosing layers, interleaved, random; include trees and positions; prices outside the transactions) under several KNUT_VERIF_SEED/GOMAXPROCS schedules, "
+                "columns = period ends of the model partition of the window and day counts per column. A class = (month, weekday, leap) resp. "
                 "(interval, inverted?, sign of last, bucket of period count); distinct_nontrivial counts classes hit.",
         "assumptions": ["Go's time package (Date normalisation, AddDate, Weekday) behaves as the day-number model on 0001..9999 (checked exhaustively in the thorough tier)",
                         "sort.Search in Partition.Align is modelled as a linear search over the (strictly increasing) period ends"],
